@@ -145,7 +145,7 @@ pub(super) fn execute_set_from_maps<S: GraphSnapshot>(
                     }
                 }
                 for (key, value) in target {
-                    if existing.get(&key) != Some(&value) {
+                    if !existing.get(&key).is_some_and(|old| same_stored_value(old, &value)) {
                         txn.set_node_property(node_id, key, value)?;
                         count += 1;
                     }
@@ -183,7 +183,7 @@ pub(super) fn execute_set_from_maps<S: GraphSnapshot>(
                     }
                 }
                 for (key, value) in target {
-                    if existing.get(&key) != Some(&value) {
+                    if !existing.get(&key).is_some_and(|old| same_stored_value(old, &value)) {
                         txn.set_edge_property(edge.src, edge.rel, edge.dst, key, value)?;
                         count += 1;
                     }
@@ -774,5 +774,23 @@ mod tests {
             Error::Other(msg) => assert_eq!(msg, "runtime error: InvalidPropertyType"),
             other => panic!("expected InvalidPropertyType error, got {other:?}"),
         }
+    }
+}
+
+/// Is writing `new` over `old` a no-op? Unlike `==` this tells `-0.0` from `0.0` (the stored
+/// bits change) and treats NaN as equal to itself.
+fn same_stored_value(old: &PropertyValue, new: &PropertyValue) -> bool {
+    match (old, new) {
+        (PropertyValue::Float(a), PropertyValue::Float(b)) => a.to_bits() == b.to_bits(),
+        (PropertyValue::List(a), PropertyValue::List(b)) => {
+            a.len() == b.len() && a.iter().zip(b).all(|(x, y)| same_stored_value(x, y))
+        }
+        (PropertyValue::Map(a), PropertyValue::Map(b)) => {
+            a.len() == b.len()
+                && a.iter()
+                    .zip(b)
+                    .all(|((ka, x), (kb, y))| ka == kb && same_stored_value(x, y))
+        }
+        _ => old == new,
     }
 }
